@@ -1,3 +1,4 @@
+import JominiModel.Proofs.TextTapeDomWf
 import JominiModel.Proofs.TextTapeWf
 import JominiModel.Proofs.TextTapeScalars
 import JominiModel.Proofs.BinTapeWf
